@@ -324,3 +324,84 @@ contract(
                           "TaskScenario._lastBookedSlot@self", "TaskScenario._selectedResources@self",
                           "TaskScenario._selectedAlternative@self", "@start@self.property"],
 )
+
+_SS_MOD = _BR_FRAME + ["TaskScenario.doneEffort@self", "TaskScenario.doneDuration@self", "TaskScenario.doneLength@self",
+                       "TaskScenario._lastBookedResource@self", "TaskScenario._lastBookedSlot@self",
+                       "TaskScenario._selectedResources@self", "TaskScenario._selectedAlternative@self",
+                       "@start@self.property", "@end@self.property"]
+_ss_sel_distinct = ("distinct", "implies(self._selectedResources is not None, forall(a, 0, len(some(self._selectedResources)), "
+                                "forall(b, 0, len(some(self._selectedResources)), implies(a != b, "
+                                "some(self._selectedResources)[a] != some(self._selectedResources)[b]))))")
+_ss_alloc_distinct = ("distinct-alloc", "implies(attr(self.property, 'allocate', self.scenarioIdx) is not None, "
+                                        "forall(a, 0, len(some(attr(self.property, 'allocate', self.scenarioIdx))), "
+                                        "forall(b, 0, len(some(attr(self.property, 'allocate', self.scenarioIdx))), implies(a != b, "
+                                        "some(attr(self.property, 'allocate', self.scenarioIdx))[a] != some(attr(self.property, 'allocate', self.scenarioIdx))[b]))))")
+
+contract(
+    TS + "::TaskScenario.propagateDate", props=["C06"],
+    params={"self": Ref("TaskScenario"), "date": DT, "atEnd": Bool},
+    ensures=[("end", "implies(atEnd, TEnd(self.property, self.scenarioIdx) is not None and some(TEnd(self.property, self.scenarioIdx)) == date "
+                     "and TStart(self.property, self.scenarioIdx) == old(TStart(self.property, self.scenarioIdx)))"),
+             ("start", "implies(not atEnd, TStart(self.property, self.scenarioIdx) is not None and some(TStart(self.property, self.scenarioIdx)) == date "
+                       "and TEnd(self.property, self.scenarioIdx) == old(TEnd(self.property, self.scenarioIdx)))")],
+    modifies=["@start@self.property", "@end@self.property"],
+)
+
+# effort tasks only (the scheduler's main case); milestones are covered by the milestone clause
+contract(
+    TS + "::TaskScenario.scheduleSlot", props=["C01", "C03", "C04", "C06"],
+    params={"self": Ref("TaskScenario")}, ret=Bool,
+    requires=[("task", "TaskOk(self)"), ("world", "World(self)"),
+              ("forward", "attr(self.property, 'forward', self.scenarioIdx) is not None"),
+              _ss_sel_distinct, _ss_alloc_distinct,
+              ("effort", "self.doneEffort >= 0"),
+              ("no-duration", "attr(self.property, 'duration', self.scenarioIdx) is None or some(attr(self.property, 'duration', self.scenarioIdx)) == 0"),
+              ("not-contiguous", "attr(self.property, 'flags', self.scenarioIdx) is None"),
+              ("eff-positive", "forall(r, 'Ref:Resource', Eff(r, self.scenarioIdx) > 0)"),
+              # the slot walk calls this only while the task still lacks effort
+              ("unfinished", "implies(IsEffortTask(self), self.doneEffort < EffortOf(self))")],
+    assumes=anc_axioms_all("Resource") + L.anc_axioms("self.property"),
+    ensures=[
+        ("world", "World(self)"),
+        ("cursor-kept", "self.currentSlotIdx == old(self.currentSlotIdx) and self.slotStartOffset == old(self.slotStartOffset)"),
+        ("effort-monotone", "self.doneEffort >= old(self.doneEffort)"),
+        # C03: an effort task stops exactly when the credited effort reaches the requested effort
+        ("stop", "implies(IsEffortTask(self), iff(not result, self.doneEffort >= some(attr(self.property, 'effort', self.scenarioIdx))))"),
+        ("end-on-stop", "implies(IsEffortTask(self) and not result and some(attr(self.property, 'forward', self.scenarioIdx)), "
+                        "TEnd(self.property, self.scenarioIdx) is not None)"),
+        ("start-on-stop-backward", "implies(IsEffortTask(self) and not result and not some(attr(self.property, 'forward', self.scenarioIdx)), "
+                                   "TStart(self.property, self.scenarioIdx) is not None)"),
+        ("end-kept-while-running", "implies(IsEffortTask(self) and result, TEnd(self.property, self.scenarioIdx) == old(TEnd(self.property, self.scenarioIdx)))"),
+        ("end-kept-backward", "implies(IsEffortTask(self) and not some(attr(self.property, 'forward', self.scenarioIdx)), "
+                              "TEnd(self.property, self.scenarioIdx) == old(TEnd(self.property, self.scenarioIdx)))"),
+        # C04/C06: the start is written on the first credit only
+        ("start-once", "implies(IsEffortTask(self) and some(attr(self.property, 'forward', self.scenarioIdx)) and "
+                       "TStart(self.property, self.scenarioIdx) != old(TStart(self.property, self.scenarioIdx)), "
+                       "old(self.doneEffort) == 0 and self.doneEffort > 0 and TStart(self.property, self.scenarioIdx) is not None and "
+                       "secs(some(TStart(self.property, self.scenarioIdx))) == secs(PT(self.project, some(self.currentSlotIdx))) + self.slotStartOffset)"),
+        # C06: a milestone has start == end at the dependency bound
+        ("milestone", "implies(IsMilestone(self) and some(attr(self.property, 'forward', self.scenarioIdx)) and "
+                      "old(TStart(self.property, self.scenarioIdx)) is None, "
+                      "not result and TStart(self.property, self.scenarioIdx) is not None and "
+                      "TStart(self.property, self.scenarioIdx) == TEnd(self.property, self.scenarioIdx) and "
+                      "secs(some(TStart(self.property, self.scenarioIdx))) == secs(PT(self.project, some(self.currentSlotIdx))) + self.slotStartOffset)"),
+        ("selected-once", "implies(old(self._selectedResources) is not None, self._selectedResources == old(self._selectedResources))"),
+        _ss_sel_distinct,
+        ("scheduled-kept", "attr(self.property, 'scheduled', self.scenarioIdx) == old(attr(self.property, 'scheduled', self.scenarioIdx))"),
+    ],
+    calls={
+        "self.bookResources": ("contract", TS + "::TaskScenario.bookResources"),
+        "self._calculatePreciseEndTimeAndRelease": ("contract", TS + "::TaskScenario._calculatePreciseEndTimeAndRelease"),
+        "self.propagateDate": ("contract", TS + "::TaskScenario.propagateDate"),
+        "self.project.idxToDate": ("spec", ["self", "i"], "ite(self.attributes['start'] is None, None, PT(self, i))"),
+        "self.project.dateToIdx": ("spec", ["self", "d"], "trunc((secs(d) - secs(PStart(self))) / PG(self))"),
+        "self._hasContiguousBlock": ("pure", Bool),
+    },
+    static={"hasattr(self, 'doneEffort')": True, "hasattr(self, 'doneDuration')": True, "hasattr(self, 'doneLength')": True},
+    modifies=_SS_MOD,
+)
+ghost("EffortOf", ["ts"], "ite(attr(ts.property, 'effort', ts.scenarioIdx) is None, 0, some(attr(ts.property, 'effort', ts.scenarioIdx)))")
+ghost("LengthOf", ["ts"], "ite(attr(ts.property, 'length', ts.scenarioIdx) is None, 0, some(attr(ts.property, 'length', ts.scenarioIdx)))")
+ghost("MsFlag", ["ts"], "attr(ts.property, 'milestone', ts.scenarioIdx) is not None and some(attr(ts.property, 'milestone', ts.scenarioIdx))")
+ghost("IsMilestone", ["ts"], "MsFlag(ts) or (EffortOf(ts) == 0 and LengthOf(ts) == 0)")
+ghost("IsEffortTask", ["ts"], "not IsMilestone(ts) and EffortOf(ts) > 0")
